@@ -615,7 +615,7 @@ def _reduce(data, f, axis, keepdims, empty=None):
     rest = [i for i in range(data.ndim) if i not in ax]
     moved = np.transpose(data, rest + list(ax))
     oshape = moved.shape[:len(rest)]
-    flat = moved.reshape(oshape + (-1,))
+    flat = moved.reshape(oshape + (int(np.prod([data.shape[a] for a in ax], dtype=int)),))       # (explicit: -1 is ambiguous for empty arrays)
     out = np.empty(oshape, dtype=object)
     for idx in np.ndindex(*oshape):
         vals = flat[idx]
